@@ -26,8 +26,13 @@ stale = []
 pending = []
 fails_now = {f: replay_fails(f) for fs in by_commit.values() for f in fs}
 only = [a for a in sys.argv[1:] if not a.startswith('--')]
+# these fixes cannot be taken out of the current tree (later commits build on them): their tapes
+# are maintained with tools/regen_fixed_oldtree.sh against the tree at the commit's parent
+OLDTREE = {'e678cd0', '0afa5db', '0fa83fb'}
 for commit, files in by_commit.items():
     if only and commit not in only: continue
+    if commit in OLDTREE and commit not in only:
+        print('skip  ', commit, '(old-tree only: tools/regen_fixed_oldtree.sh)'); continue
     if not take_out(commit):
         print("cannot take out", commit); restore(); continue
     for f in files:
